@@ -845,6 +845,89 @@ def c10_register(kind: int, sig_a: bool, sig_b: bool, allow: int, deny: int, api
       _reg_restore(snap)
 
 
+# ---- histories: what an earlier (failed) call leaves behind must not change a later call ---------------------
+# (round d seed C10-d: the helper that orders the missing names extended the CACHED argument list in place)
+HLOG = []
+
+
+def _hvk(a, *rest, k=gin.REQUIRED):
+  HLOG.append((a, rest, k))
+  return (a, rest, k)
+
+
+def _hvd(a, b=gin.REQUIRED, *rest, k=gin.REQUIRED, **kw):
+  HLOG.append((a, b, rest, k, kw))
+  return (a, b, rest, k, kw)
+
+
+if 'vw10.hvk' not in gc._REGISTRY:
+  gin.external_configurable(_hvk, 'hvk', module='vw10')
+  gin.external_configurable(_hvd, 'hvd', module='vw10')
+
+
+def c10_history(fn: int, prior: int, nrest: int, mark: int, bound: bool, vk: int) -> bool:
+  """
+  pre: 0 <= fn < 2 and 0 <= prior < 4 and 0 <= nrest < 3 and 0 <= mark < 3
+  """
+  fn, prior, nrest, mark = rt.pick(fn, 2), rt.pick(prior, 4), rt.pick(nrest, 3), rt.pick(mark, 3)
+  bound = rt.flag(bound)
+  rt.sig(('history', fn, prior, nrest, mark, bound), nontrivial=True)
+  R = gin.REQUIRED
+  with rt.native():
+    world.fresh()
+    getattr(gc, '_ARG_SPEC_CACHE', {}).clear()       # every path starts like a fresh process
+    del HLOG[:]
+    sel, f = [('vw10.hvk', gin.get_configurable(_hvk)), ('vw10.hvd', gin.get_configurable(_hvd))][fn]
+    head = (1,) if fn == 0 else (1, 2)
+    # 1. earlier calls of the same configurable
+    for _ in range([0, 1, 2, 1][prior]):
+      if prior == 3:                                  # a successful one
+        f(*head, k=7)
+      else:                                           # k is not bound: fails before the body, naming ['k']
+        try:
+          f(*head)
+          return rt.no('the call with k unfilled did not fail')
+        except RuntimeError as e:
+          if "['k']" not in str(e):
+            return rt.no('the failed call named %s' % e)
+    del HLOG[:]
+  if bound:
+    gin.bind_parameter(sel + '.k', vk)
+  with rt.native():
+    # 2. the call under test: nrest surplus positionals, the marker at none / the first / the last of them
+    rest = [10 + i for i in range(nrest)]
+    if mark and not nrest:
+      rt.discard()
+    if mark == 1:
+      rest[0] = R
+    elif mark == 2:
+      rest[-1] = R
+    try:
+      got = f(*(head + tuple(rest)))
+      raised = None
+    except Exception as e:                            # noqa
+      got, raised = None, e
+    if mark:                                          # the marker for an unnamed variadic positional is rejected
+      if not isinstance(raised, ValueError) or HLOG:
+        return rt.no('REQUIRED passed for *rest was not rejected: %r %r' % (got, raised))
+      return True
+    if not bound:
+      if not isinstance(raised, RuntimeError) or "['k']" not in str(raised) or HLOG:
+        return rt.no('k unfilled, but the call gave %r %r' % (got, raised))
+      return True
+    if raised is not None:
+      return rt.no('k is bound, but the call raised %r' % (raised,))
+  want = (1, tuple(rest), vk) if fn == 0 else (1, 2, tuple(rest), vk, {})
+  with rt.native():
+    got = rt.realize(got)
+  if got[:-1 if fn else 2] != want[:-1 if fn else 2]:
+    return rt.no('received %r, expected %r' % (got, want))
+  k_got = got[2] if fn == 0 else got[3]
+  if k_got is R:
+    return rt.no('the marker reached the body')
+  return k_got == vk
+
+
 HARNESSES = {
     'c10_req': dict(
         fn='c10_req',
@@ -902,6 +985,17 @@ HARNESSES = {
                'every subset of the scopes {root, s, s/t, t}; call stacks [], [s], [s,t] nested, [s,t] as one '
                "scope string, [s,t] through gin.get_configurable('s/t/vw.req'), [t]; the other two REQUIRED "
                'parameters bound at the root or not; all int values'),
+    'c10_history': dict(
+        fn='c10_history',
+        anchors=['gin.config:gin_wrapper', 'gin.config:_order_by_signature'],
+        smoke=[dict(fn=0, prior=1, nrest=1, mark=0, bound=True, vk=5), dict(fn=1, prior=2, nrest=2, mark=2, bound=True, vk=5),
+               dict(fn=0, prior=0, nrest=0, mark=0, bound=False, vk=0), dict(fn=1, prior=3, nrest=1, mark=1, bound=False, vk=0)],
+        tiers={'quick': dict(split=dict(fn=[0, 1], prior=[0, 1, 2, 3]), budget_s=100),
+               'thorough': dict(split=dict(fn=[0, 1], prior=[0, 1, 2, 3]), budget_s=200)},
+        bounds='two signatures with *rest and keyword-only REQUIRED (a, *rest, k=REQUIRED) / (a, b=REQUIRED, *rest, '
+               'k=REQUIRED, **kw); history before the call under test: none, one or two calls that failed with k unfilled, '
+               'or one successful call; then a call with 0-2 surplus positionals, the marker at none / the first / the '
+               'last of them, k bound (all ints) or not'),
     'c10_marker': dict(
         fn='c10_marker',
         anchors=['gin.config:gin_wrapper'],
